@@ -33,4 +33,10 @@ try:
         res.append({"id": b["id"], "note": b.get("note"), "fired": fired})
 finally:
     clean()
-json.dump(res, open(os.path.join(ROOT, "mutants", "benign_results.json"), "w"), indent=1)
+res_path = os.path.join(ROOT, "mutants", "benign_results.json")
+if only and os.path.exists(res_path):
+    prev = {r["id"]: r for r in json.load(open(res_path))}
+    prev.update({r["id"]: r for r in res})
+    order = [b["id"] for b in ben]
+    res = [prev[k] for k in order if k in prev]
+json.dump(res, open(res_path, "w"), indent=1)
